@@ -342,7 +342,7 @@ package shaping
 // markCandidateBest: the best line is the candidate followed by the suffixes; it lives in the unused part of the line
 // buffer exactly when bestInLine says so (finalizeBest advances lineUsed by its length only then), otherwise in
 // fresh memory.
-//@ func wrapBuffer.markCandidateBest C02 C04
+//@ func wrapBuffer.markCandidateBest C02 C04 C03
 //@   mode int
 //@   requires [buffer] 0 <= w.lineUsed && w.lineUsed <= cap(w.line) && len(w.line) <= cap(w.line)
 //@   ensures [length] len(w.best) == len(w.alt) + len(suffixes)
